@@ -255,7 +255,32 @@ def run(ctx):
                     ef -= p + rng.randrange(0, 2)
                 return o
 
-            b1, b2 = mk(n1), mk(n2)
+            def mk_general(n):
+                """overlapping / equal-magnitude / cancelling / zero-containing operands (not normalised), mid-range exponents"""
+                kind = rng.randrange(4)
+                base = mid + rng.randrange(0, 6)
+                o, ef = [], base
+                for i in range(n):
+                    if rng.random() < 0.15:
+                        o.append(rng.choice([0, 1 << (w - 1)]))
+                        continue
+                    if kind == 0:
+                        ef = base
+                    elif kind == 1:
+                        ef = max(1, ef - rng.randrange(0, p // 2 + 1)) if i else base
+                    elif kind == 2:
+                        ef = max(1, base + rng.randrange(-p, p))
+                    else:
+                        ef = max(1, ef - rng.randrange(p, p + 2)) if i else base
+                    m = rng.choice([0, 0, fpx.directed_patterns(rng, fmt, 1)[0] & ((1 << (p - 1)) - 1), 1 << (p - 2)])
+                    o.append(fpx.pattern(fmt, rng.getrandbits(1), ef, m))
+                return o
+
+            if rng.random() < 0.5:
+                b1, b2 = mk_general(n1), mk_general(n2)
+                ctx.count("product:general-operands")
+            else:
+                b1, b2 = mk(n1), mk(n2)
             # documented domain of the Dekker product: every partial product has a representable error term (no underflow)
             lim = Fraction(2) ** (fpx.emin(fmt) + 2 * p)
             ys_ = [fr(b, fmt) for b in (b2 if op == "multiply" else b1)]
